@@ -1051,10 +1051,67 @@ Proof.
   destruct Hin as [dd [_ ->]]. apply (cols_subst K ds HK _ y H).
 Qed.
 
+Definition marker_compiled (cc : compiled) : compiled :=
+  let sc := c_scope cc in
+  let q := c_q cc in
+  {| c_from := FRows (fun d => map (fun u => map (fun x => (x, evd (c_defs cc) u x)) sc) (final_units d cc));
+     c_cols := sc;
+     c_q := {| q_select := q_select q; q_part := q_part q; q_group := []; q_where := []; q_having := [];
+               q_order := []; q_limit := None; q_offset := 0; q_summ := false |};
+     c_labels := c_labels cc;
+     c_defs := map (fun x => (x, ECol x)) sc;
+     c_scope := sc |}.
+
+Definition alias_marker_compiled (m : list (uid * uid)) (cc : compiled) : compiled :=
+  let sc := c_scope cc in
+  let q := c_q cc in
+  {| c_from := FRows (fun d => map (fun u => map (fun x => (remap_uid m x, evd (c_defs cc) u x)) sc) (final_units d cc));
+     c_cols := map (remap_uid m) sc;
+     c_q := {| q_select := map (remap_uid m) (q_select q); q_part := map (remap_uid m) (q_part q);
+               q_group := []; q_where := []; q_having := [];
+               q_order := []; q_limit := None; q_offset := 0; q_summ := false |};
+     c_labels := map (fun ul => (remap_uid m (fst ul), snd ul)) (c_labels cc);
+     c_defs := map (fun x => (remap_uid m x, ECol (remap_uid m x))) sc;
+     c_scope := map (remap_uid m) sc |}.
+
+Lemma compile_marker_alias c0 m :
+  compile (SubqueryMarker (Alias c0 (Some m))) = match compile c0 with Some cc => Some (alias_marker_compiled m cc) | None => None end.
+Proof. reflexivity. Qed.
+Lemma compile_marker_generic a : (forall c0 m, a <> Alias c0 (Some m)) ->
+  compile (SubqueryMarker a) = match compile a with Some cc => Some (marker_compiled cc) | None => None end.
+Proof. intros H. destruct a as [| | | | | | | | | |a0 [m|]| | |]; try reflexivity. exfalso. apply (H a0 m). reflexivity. Qed.
+Lemma flat_ok_marker_alias c0 m :
+  flat_ok (SubqueryMarker (Alias c0 (Some m))) =
+  flat_ok c0 && match compile c0 with
+                | Some cc =>
+                    let U := ast_uids c0 ++ c_scope cc ++ map fst (c_labels cc) in
+                    forallb (fun a => forallb (fun b => implb (N.eqb (remap_uid m a) (remap_uid m b)) (N.eqb a b)) U) U
+                | None => false
+                end.
+Proof. reflexivity. Qed.
+Lemma flat_ok_marker_generic a : (forall c0 m, a <> Alias c0 (Some m)) -> flat_ok (SubqueryMarker a) = flat_ok a.
+Proof. intros H. destruct a as [| | | | | | | | | |a0 [m|]| | |]; try reflexivity. exfalso. apply (H a0 m). reflexivity. Qed.
+Lemma alias_some_dec (a : ast) : (exists c0 m, a = Alias c0 (Some m)) \/ (forall c0 m, a <> Alias c0 (Some m)).
+Proof. destruct a as [| | | | | | | | | |a0 [m|]| | |]; try (right; intros; discriminate). left. exists a0, m. reflexivity. Qed.
+
+Fixpoint asize (a : ast) : nat :=
+  match a with
+  | Source _ _ => 1
+  | Select c _ | Rename c _ | Mutate c _ | Filter c _ | Arrange c _ | SliceHead c _ _
+  | GroupBy c _ _ | Ungroup c | Summarize c _ | Alias c _ | SubqueryMarker c => S (asize c)
+  | Join l r _ _ | Union l r _ => S (asize l + asize r)
+  end.
+
 Theorem compile_base : forall a c, compile a = Some c -> Base c.
 Proof.
-  induction a as [t cs|a IH us|a IH m|a IH defs|a IH ps|a IH os|a IH n k|a IH us add|a IH|a IH defs|a IH m|a IH|l IHl r IHr on how|l IHl r IHr dis];
-    intros c C; cbn [compile] in C.
+  intros a. remember (asize a) as sz eqn:Hsz. revert a Hsz. induction sz as [sz IHsz] using lt_wf_ind. intros a Hsz.
+  assert (IH0 : forall b, asize b < asize a -> forall c, compile b = Some c -> Base c).
+  { intros b Hb. apply (IHsz (asize b)); [lia|reflexivity]. }
+  clear IHsz Hsz.
+  destruct a as [t cs|a us|a m|a defs|a ps|a os|a n k|a us add|a|a defs|a m|a|l r on how|l r dis];
+    try (pose proof (IH0 a ltac:(cbn [asize]; lia)) as IH);
+    try (pose proof (IH0 l ltac:(cbn [asize]; lia)) as IHl); try (pose proof (IH0 r ltac:(cbn [asize]; lia)) as IHr);
+    intros c C; lazymatch type of C with compile (SubqueryMarker _) = _ => idtac | _ => cbn [compile] in C end.
   - inversion C; subst; clear C. constructor; cbn [base_rows c_from c_cols c_defs].
     + intros d b x Hb Hx. apply in_map_iff in Hb. destruct Hb as [vs [<- _]]. apply (zip_row_keys _ _ _ Hx).
     + intros x y H. unfold def_of in H.
@@ -1073,14 +1130,22 @@ Proof.
   - destruct (compile a) as [cc|] eqn:E; [|discriminate C]. inversion C; subst. destruct (IH cc eq_refl) as [B1 B2].
     constructor; cbn [base_rows c_from c_cols c_defs]; [exact B1|]. apply base_new_defs. exact B2.
   - destruct m; [discriminate C|]. apply IH. exact C.
-  - destruct (compile a) as [cc|] eqn:E; [|discriminate C]. inversion C; subst; clear C.
-    constructor; cbn [base_rows c_from c_cols c_defs].
-    + intros d b x Hb Hx. apply in_map_iff in Hb. destruct Hb as [u [<- _]]. rewrite map_map in Hx. simpl in Hx.
-      rewrite map_id in Hx. exact Hx.
-    + intros x y H. unfold def_of in H.
-      destruct (assoc_u x (map (fun u : uid => (u, ECol u)) (c_scope cc))) as [e|] eqn:Ea; [|destruct H].
-      clear -Ea H. induction (c_scope cc) as [|u L IH]; simpl in Ea; [discriminate|].
-      destruct (N.eqb x u); [inversion Ea; subst; simpl in H; destruct H as [<-|[]]; left; reflexivity|right; apply IH; exact Ea].
+  - destruct (alias_some_dec a) as [[c0 [m ->]]|Hna].
+    + rewrite compile_marker_alias in C. destruct (compile c0) as [cc|] eqn:E; [|discriminate C]. inversion C; subst; clear C.
+      constructor; cbn [alias_marker_compiled base_rows c_from c_cols c_defs].
+      * intros d b x Hb Hx. apply in_map_iff in Hb. destruct Hb as [u [<- _]]. rewrite map_map in Hx. simpl in Hx. exact Hx.
+      * intros x y H. unfold def_of in H.
+        destruct (assoc_u x (map (fun u : uid => (remap_uid m u, ECol (remap_uid m u))) (c_scope cc))) as [e|] eqn:Ea; [|destruct H].
+        clear -Ea H. induction (c_scope cc) as [|u L IHL]; simpl in Ea; [discriminate|].
+        destruct (N.eqb x (remap_uid m u)); [inversion Ea; subst; simpl in H; destruct H as [<-|[]]; left; reflexivity|right; apply IHL; exact Ea].
+    + rewrite (compile_marker_generic a Hna) in C. destruct (compile a) as [cc|] eqn:E; [|discriminate C]. inversion C; subst; clear C.
+      constructor; cbn [marker_compiled base_rows c_from c_cols c_defs].
+      * intros d b x Hb Hx. apply in_map_iff in Hb. destruct Hb as [u [<- _]]. rewrite map_map in Hx. simpl in Hx.
+        rewrite map_id in Hx. exact Hx.
+      * intros x y H. unfold def_of in H.
+        destruct (assoc_u x (map (fun u : uid => (u, ECol u)) (c_scope cc))) as [e|] eqn:Ea; [|destruct H].
+        clear -Ea H. induction (c_scope cc) as [|u L IHL]; simpl in Ea; [discriminate|].
+        destruct (N.eqb x u); [inversion Ea; subst; simpl in H; destruct H as [<-|[]]; left; reflexivity|right; apply IHL; exact Ea].
   - destruct how; try discriminate C.
     + destruct (compile l) as [cl|] eqn:El; [|discriminate C]. destruct (compile r) as [cr|] eqn:Er; [|discriminate C].
       inversion C; subst; clear C. destruct (IHl cl eq_refl) as [L1 L2]. destruct (IHr cr eq_refl) as [R1 R2].
@@ -1660,17 +1725,6 @@ Proof.
 Qed.
 
 (* ---------- subquery marker ---------- *)
-Definition marker_compiled (cc : compiled) : compiled :=
-  let sc := c_scope cc in
-  let q := c_q cc in
-  {| c_from := FRows (fun d => map (fun u => map (fun x => (x, evd (c_defs cc) u x)) sc) (final_units d cc));
-     c_cols := sc;
-     c_q := {| q_select := q_select q; q_part := q_part q; q_group := []; q_where := []; q_having := [];
-               q_order := []; q_limit := None; q_offset := 0; q_summ := false |};
-     c_labels := c_labels cc;
-     c_defs := map (fun x => (x, ECol x)) sc;
-     c_scope := sc |}.
-
 Lemma get_map_val (g : uid -> value) L u : In u L -> get (map (fun x => (x, g x)) L) u = g u.
 Proof.
   induction L as [|y L IH]; intros H; [destruct H|]. simpl.
@@ -1714,10 +1768,113 @@ Proof.
   - exact G.
 Qed.
 
+(* ---------- alias() + subquery marker: the outer columns carry the identities handed out by alias() ---------- *)
+Lemma get_remap_row (m : list (uid * uid)) (V : list uid) :
+  (forall a b, In a V -> In b V -> remap_uid m a = remap_uid m b -> a = b) ->
+  forall (r : row) x, (forall k, In k (map fst r) -> In k V) -> In x V ->
+  get (map (fun b : uid * value => (remap_uid m (fst b), snd b)) r) (remap_uid m x) = get r x.
+Proof.
+  intros Inj. induction r as [|[k v] r IH]; intros x Hk Hx; [reflexivity|]. simpl.
+  destruct (N.eqb_spec k x) as [E|E].
+  - subst. rewrite N.eqb_refl. reflexivity.
+  - destruct (N.eqb_spec (remap_uid m k) (remap_uid m x)) as [E2|E2].
+    + exfalso. apply E. apply Inj; [apply Hk; left; reflexivity|exact Hx|exact E2].
+    + apply IH; [|exact Hx]. intros k0 Hk0. apply Hk. right. exact Hk0.
+Qed.
+
+Lemma get_map_remap (m : list (uid * uid)) (V : list uid) (g : uid -> value) :
+  (forall a b, In a V -> In b V -> remap_uid m a = remap_uid m b -> a = b) ->
+  forall L x, (forall y, In y L -> In y V) -> In x L ->
+  get (map (fun y => (remap_uid m y, g y)) L) (remap_uid m x) = g x.
+Proof.
+  intros Inj. induction L as [|y L IH]; intros x HL Hx; [destruct Hx|]. simpl.
+  destruct (N.eqb_spec (remap_uid m y) (remap_uid m x)) as [E|E].
+  - f_equal. apply Inj; [apply HL; left; reflexivity|apply HL; exact Hx|exact E].
+  - destruct Hx as [Hx|Hx]; [subst; contradiction|]. apply IH; [|exact Hx]. intros z Hz. apply HL. right. exact Hz.
+Qed.
+
+Lemma label_remap (m : list (uid * uid)) (V : list uid) (ls : slabels) u :
+  (forall a b, In a V -> In b V -> remap_uid m a = remap_uid m b -> a = b) ->
+  (forall k, In k (map fst ls) -> In k V) -> In u (map fst ls) ->
+  label (map (fun ul => (remap_uid m (fst ul), snd ul)) ls) (remap_uid m u) = label ls u.
+Proof.
+  intros Inj HV Hu. unfold label. induction ls as [|[k n] ls IH]; [destruct Hu|]. simpl.
+  destruct (N.eqb_spec u k) as [E|E].
+  - subst. rewrite N.eqb_refl. reflexivity.
+  - destruct (N.eqb_spec (remap_uid m u) (remap_uid m k)) as [E2|E2].
+    + exfalso. apply E. apply Inj; [apply HV; right; destruct Hu as [Hu|Hu]; [simpl in Hu; congruence|exact Hu]|apply HV; left; reflexivity|exact E2].
+    + destruct Hu as [Hu|Hu]; [simpl in Hu; congruence|]. apply IH; [|exact Hu]. intros k0 Hk0. apply HV. right. exact Hk0.
+Qed.
+
+Lemma def_remap_self (m : list (uid * uid)) L x : In x L ->
+  def_of (map (fun y => (remap_uid m y, ECol (remap_uid m y))) L) (remap_uid m x) = ECol (remap_uid m x).
+Proof.
+  unfold def_of. induction L as [|y L IH]; intros H; [destruct H|]. simpl.
+  destruct (N.eqb_spec (remap_uid m x) (remap_uid m y)) as [E|E]; [rewrite E; reflexivity|].
+  destruct H as [H|H]; [subst; contradiction|]. apply IH. exact H.
+Qed.
+
+Lemma alias_marker_case d s cc m (U : list uid) :
+  Inv d s cc -> Aux cc -> keys_in U (rows s) ->
+  (forall a b, In a (U ++ c_scope cc ++ map fst (c_labels cc)) -> In b (U ++ c_scope cc ++ map fst (c_labels cc)) ->
+               remap_uid m a = remap_uid m b -> a = b) ->
+  let s' := do_alias s (Some m) in
+  Inv d {| rows := rows s'; sel := sel s'; group := group s'; ord_defined := false; bad := bad s' |} (alias_marker_compiled m cc)
+  /\ Aux (alias_marker_compiled m cc).
+Proof.
+  intros [R S G] A KU Inj s'. set (sc := c_scope cc). set (cm := alias_marker_compiled m cc).
+  set (V := U ++ c_scope cc ++ map fst (c_labels cc)) in *.
+  assert (VU : forall x, In x U -> In x V) by (intros x Hx; unfold V; apply in_or_app; left; exact Hx).
+  assert (VS : forall x, In x sc -> In x V) by (intros x Hx; unfold V; apply in_or_app; right; apply in_or_app; left; exact Hx).
+  assert (VL : forall x, In x (map fst (c_labels cc)) -> In x V) by (intros x Hx; unfold V; apply in_or_app; right; apply in_or_app; right; exact Hx).
+  assert (AUX : Aux cm).
+  { destruct A as [A1 A2 A3 A4 A5 A6 A7 A8 A9 A10].
+    constructor; unfold cm, alias_marker_compiled; cbn [c_scope c_defs c_q c_labels q_select q_part q_group q_where q_having q_order q_summ q_limit q_offset].
+    - intros x Hx. rewrite map_map. simpl. exact Hx.
+    - intros x Hx. apply in_map_iff in Hx. destruct Hx as [y [<- Hy]]. apply in_map. apply A2. exact Hy.
+    - intros x Hx. apply in_map_iff in Hx. destruct Hx as [y [<- Hy]]. rewrite map_map. simpl.
+      rewrite <- (map_map fst (remap_uid m)). apply in_map. apply A3. exact Hy.
+    - intros x Hx. apply in_map_iff in Hx. destruct Hx as [y [<- Hy]]. apply in_map. apply A4. exact Hy.
+    - intros x Hx. destruct Hx.
+    - intros p Hp. destruct Hp.
+    - intros p Hp. destruct Hp.
+    - intros o Ho. destruct Ho.
+    - intros _. split; reflexivity.
+    - intros l H. discriminate H. }
+  split; [|exact AUX].
+  constructor; cbn [rows sel group s' do_alias].
+  - set (B := map (fun u : unit_ => map (fun x : uid => (remap_uid m x, evd (c_defs cc) u x)) sc) (final_units d cc)).
+    assert (EF : final_units d cm = map (fun ir => (index_rows B, ir)) (index_rows B)).
+    { rewrite (final_units_rows d cm AUX eq_refl eq_refl eq_refl). cbv zeta.
+      assert (EB : filter (fun r => all_true (c_defs cm) (q_where (c_q cm)) (mk1 r)) (base_rows d cm) = B).
+      { unfold cm, alias_marker_compiled, base_rows. cbn [c_from c_defs c_q q_where]. fold sc.
+        rewrite (filter_ext _ (fun _ => true)) by reflexivity. apply filter_true. }
+      rewrite EB. reflexivity. }
+    rewrite EF. apply Forall2_map_r. generalize (index_rows B) at 1. intros ctx.
+    apply Forall2_index_rows_r. unfold B. apply Forall2_map_l. apply Forall2_map_r.
+    pose proof (Forall2_with_In _ _ _ R) as R'.
+    eapply Forall2_impl'; [|exact R']. intros r u [Hru Hr] i x' Hx'. cbn [c_scope cm alias_marker_compiled] in Hx'. fold sc in Hx'.
+    apply in_map_iff in Hx'. destruct Hx' as [x [<- Hx]].
+    unfold evd. cbn [fst snd c_defs cm alias_marker_compiled]. fold sc. rewrite (def_remap_self m sc x Hx). simpl.
+    rewrite (get_map_remap m V (fun y => eval (fst u) (snd u) (def_of (c_defs cc) y)) Inj sc x VS Hx).
+    rewrite (get_remap_row m V Inj r x); [apply (Hru x Hx)| |apply VS; exact Hx].
+    intros k Hk. apply VU. apply (KU r k Hr Hk).
+  - rewrite S. unfold cm, alias_marker_compiled. cbn [c_q c_labels q_select]. rewrite !map_map. cbn [fst snd].
+    apply map_ext_in. intros u Hu. f_equal. symmetry.
+    apply (label_remap m V (c_labels cc) u Inj VL). apply (a_sel_labels cc A u Hu).
+  - rewrite G. reflexivity.
+Qed.
+
 (* ---------- the theorem ---------- *)
 Theorem compile_invariant d : forall a c, compile a = Some c -> flat_ok a = true -> Inv d (sem_ref d a) c /\ Aux c.
 Proof.
-  induction a as [t cols|a IH us|a IH m|a IH defs|a IH ps|a IH os|a IH n k|a IH us add|a IH|a IH defs|a IH m|a IH|l IHl r IHr on how|l IHl r IHr dis];
+  intros a. remember (asize a) as sz eqn:Hsz. revert a Hsz. induction sz as [sz IHsz] using lt_wf_ind. intros a Hsz.
+  assert (IH0 : forall b, asize b < asize a -> forall c, compile b = Some c -> flat_ok b = true -> Inv d (sem_ref d b) c /\ Aux c).
+  { intros b Hb. apply (IHsz (asize b)); [lia|reflexivity]. }
+  clear IHsz Hsz.
+  destruct a as [t cols|a us|a m|a defs|a ps|a os|a n k|a us add|a|a defs|a m|a|l r on how|l r dis];
+    try (pose proof (IH0 a ltac:(cbn [asize]; lia)) as IH);
+    try (pose proof (IH0 l ltac:(cbn [asize]; lia)) as IHl); try (pose proof (IH0 r ltac:(cbn [asize]; lia)) as IHr);
     intros c C F.
   - apply source_case; assumption.
   - simpl in C, F. destruct (compile a) as [cc|] eqn:E; [|discriminate C]. inversion C; subst; clear C.
@@ -1765,8 +1922,19 @@ Proof.
     destruct (IH cc eq_refl Fa) as [I A]. cbn [sem_ref]. apply negb_true_iff in G5.
     apply (summarize_case d (sem_ref d a) cc defs); assumption.
   - destruct m as [m|]; [simpl in C; discriminate C|]. simpl in C, F. cbn [sem_ref do_alias]. apply IH; assumption.
-  - cbn [compile] in C. cbn [flat_ok] in F. destruct (compile a) as [cc|] eqn:E; [|discriminate C]. inversion C; subst; clear C.
-    destruct (IH cc eq_refl F) as [I A]. cbn [sem_ref]. fold (marker_compiled cc). apply marker_case; assumption.
+  - destruct (alias_some_dec a) as [[c0 [m ->]]|Hna].
+    + rewrite compile_marker_alias in C. rewrite flat_ok_marker_alias in F.
+      destruct (compile c0) as [cc|] eqn:E; [|discriminate C]. inversion C; subst; clear C.
+      apply andb_prop in F. destruct F as [F0 Finj].
+      destruct (IH0 c0 ltac:(cbn [asize]; lia) cc E F0) as [I A].
+      cbn [sem_ref]. apply (alias_marker_case d (sem_ref d c0) cc m (ast_uids c0)); try assumption.
+      * apply (rk_rows _ _ (ref_keys d c0)).
+      * intros x y Hx Hy Exy. cbv zeta in Finj. rewrite forallb_forall in Finj. specialize (Finj x Hx).
+        rewrite forallb_forall in Finj. specialize (Finj y Hy). rewrite Exy, N.eqb_refl in Finj. simpl in Finj.
+        apply N.eqb_eq. exact Finj.
+    + rewrite (compile_marker_generic a Hna) in C. rewrite (flat_ok_marker_generic a Hna) in F.
+      destruct (compile a) as [cc|] eqn:E; [|discriminate C]. inversion C; subst; clear C.
+      destruct (IH cc eq_refl F) as [I A]. cbn [sem_ref]. apply marker_case; assumption.
   - cbn [compile] in C. cbn [flat_ok] in F. destruct how; try discriminate C.
     + destruct (compile l) as [cl|] eqn:El; [|discriminate C]. destruct (compile r) as [cr|] eqn:Er; [|discriminate C].
       inversion C; subst; clear C.
